@@ -5,6 +5,16 @@ import json, subprocess
 BASELINE = json.load(open('/root/.vp/BASELINE.json'))
 
 CLAIMS = {
+ "C11": dict(
+   technique="static analysis: comparison-discipline, sibling (twin) and delegation checks over go/ssa and the syntax tree for the cell-id / cell-union code; must-pass-through of Normalize",
+   text="Narrow claim: decides only the clauses of the cell-union algebra that are visible in code shape. Every direct comparison of a cell's inclusive leaf range (RangeMin/RangeMax) in cellid.go and cellunion.go is inclusive on the correct side, and each function of the algebra keeps the number of such comparisons confirmed by reading (R-RANGE); first/last, begin/end and next/previous functions of CellID are mirror images (R-TWIN); a Contains* method never decides by an Intersects* method of its own type (R-NAMEPAIR); constructors that promise a normalised result pass Normalize() on every return and s2intersect normalises the very union it then sweeps (R-NORMUSE); no test is duplicated and no value compared with itself in these files (R-DUP, R-SELFCMP).",
+   note="Trusts go/types and go/ssa. Does NOT decide the algebra itself: the sibling-collapse arithmetic of Normalize, the index arithmetic of the two-pointer intersection and recursive difference, the delta stack of CellIndex.Build, the iterators' duplicate suppression, MaxTile's level arithmetic. In an exploratory round of four seeded changes written against C11, none was caught before the C11-specific obligations were added and three of four after (DESIGN.md section 10).",
+   design="DESIGN.md section 4 C11 (as built), section 9.3"),
+ "C12": dict(
+   technique="static analysis: error-budget constant folding, who-may-read rule for a lazily computed field, single-kernel and sibling (twin) checks over go/ssa",
+   text="Narrow claim: decides only what is visible in code shape. None of the documented error allowances in cell.go, paddedcell.go, stuv.go and the interior-distance test of edge_distances.go is smaller than its derived value (R-CONST); the lazily computed middle rectangle of a padded cell is read only through its accessor (R-LAZY); the point-to-cell conversion and Cell.ContainsPoint share one projection kernel (R-MIRROR); Cell.latitude/longitude and the CellID begin/end functions are mirror images (R-TWIN); chord angles are not combined with built-in arithmetic except for the antipode identity (R-UNITS).",
+   note="Trusts go/types and go/ssa and the frozen budget table. Does NOT decide that the distance functions are attained bounds, that children equal directly constructed cells, or that bounds contain the cell: these are numerical properties of the float kernels. In an exploratory round of four seeded changes written against C12, two were caught by rules that already existed (error budgets), a third by R-LAZY added afterwards, the fourth (a wrong intersection test in DistanceToCell) is not caught.",
+   design="DESIGN.md section 4 C12 (as built), section 9.3"),
  "C15": dict(
    technique="static analysis: interprocedural decoder-input taint over go/ssa (field-based heap, validated-write sanitizers) + dominating bound-check / value-range rules",
    text="Structural necessary conditions of total decoding decided for every decoder path: input-sized allocations are limit-checked and non-negative (R-ALLOC), input-chosen indices anywhere in the library are bounds-checked, masked to fit or validated (R-INDEX), input-dependent loops are bounded or consume input (R-TERM), and decoder errors reach the caller (R-STICKY). This is a sound-by-construction argument about all byte strings for those clauses, not a proof of the whole property.",
